@@ -9,6 +9,9 @@
 #include <stdio.h>
 #include <stdlib.h>
 #include <string.h>
+#include <sys/types.h>
+#include <sys/wait.h>
+#include <unistd.h>
 
 #include "lltdAutomata.h"
 #include "lltdBlock.h"
@@ -396,6 +399,18 @@ end:
     vp_print_end();
 }
 
+static void run_one(char *line, int flush_each) {
+    size_t n = strlen(line);
+    while (n > 0 && (line[n - 1] == '\n' || line[n - 1] == '\r')) line[--n] = 0;
+    if (n == 0 || line[0] == '%') return;                      /* '%' = comment */
+    fputs("# ", vp_out); fputs(line, vp_out); fputc('\n', vp_out);
+    if (flush_each) fflush(vp_out);                             /* so that a sanitizer abort is attributable to this op */
+    run_line(line);
+}
+
+/* Input is a sequence of cases: "%%case <id>" starts one; each case runs in a
+ * forked child so that it starts from a pristine core (static state included)
+ * and a crash or sanitizer abort ends only that case ("abort ..." line). */
 int main(int argc, char **argv) {
     vp_out = stdout;
     static char obuf[1 << 16];
@@ -403,16 +418,41 @@ int main(int argc, char **argv) {
     FILE *in = stdin;
     int flush_each = getenv("VERIF_FLUSH") != NULL;
     if (argc > 1) { in = fopen(argv[1], "r"); if (!in) { perror(argv[1]); return 2; } }
+    char **lines = NULL; size_t nl = 0, capl = 0;
     char *line = NULL; size_t cap = 0; ssize_t n;
     while ((n = getline(&line, &cap, in)) >= 0) {
-        while (n > 0 && (line[n - 1] == '\n' || line[n - 1] == '\r')) line[--n] = 0;
-        if (n == 0 || line[0] == '%') continue;                 /* '%' = comment */
-        fputs("# ", vp_out); fputs(line, vp_out); fputc('\n', vp_out);
-        if (flush_each) fflush(vp_out);                          /* so that a sanitizer abort is attributable to this op */
-        run_line(line);
+        if (nl == capl) { capl = capl ? capl * 2 : 1024; lines = realloc(lines, capl * sizeof(*lines)); }
+        lines[nl++] = strdup(line);
+    }
+    free(line);
+    size_t i = 0;
+    while (i < nl) {
+        if (strncmp(lines[i], "%%case", 6) == 0) {
+            size_t j = i + 1;
+            while (j < nl && strncmp(lines[j], "%%case", 6) != 0) j++;
+            fputs(lines[i], vp_out);
+            if (lines[i][strlen(lines[i]) - 1] != '\n') fputc('\n', vp_out);
+            fflush(vp_out);
+            pid_t pid = fork();
+            if (pid < 0) { perror("fork"); return 2; }
+            if (pid == 0) {
+                for (size_t k = i + 1; k < j; k++) run_one(lines[k], flush_each);
+                fprintf(vp_out, "stats mallocs=%lu faults=%lu high=%zu\n", vp_malloc_calls(), vp_faults_fired(), vp_high_bytes());
+                fflush(vp_out);
+                _exit(0);
+            }
+            int status = 0;
+            waitpid(pid, &status, 0);
+            if (WIFSIGNALED(status)) fprintf(vp_out, "abort signal=%d\n", WTERMSIG(status));
+            else if (WIFEXITED(status) && WEXITSTATUS(status) != 0) fprintf(vp_out, "abort exit=%d\n", WEXITSTATUS(status));
+            fflush(vp_out);
+            i = j;
+        } else {
+            run_one(lines[i], flush_each);
+            i++;
+        }
     }
     fprintf(vp_out, "stats mallocs=%lu faults=%lu high=%zu\n", vp_malloc_calls(), vp_faults_fired(), vp_high_bytes());
     fflush(vp_out);
-    free(line);
     return 0;
 }
